@@ -142,6 +142,16 @@ def finish(ctx: Ctx, level: str = "other") -> int:
             print(f"  rule={o.rule} construct={o.construct} site={o.site}\n    {o.detail}")
             print(f"VIOLATION property={ctx.prop} replay={rp}")
 
+    try:
+        from . import sem
+        ref = sem.reference_info()
+        ch = sem.changed_files() if sem.reference_available() else []
+        ctx.analysed["reference_snapshot"] = {"commit": ref.get("commit"), "changed_files": ch[:40]}
+        if sem.STATS:
+            ctx.analysed["reference_equivalence"] = {
+                rel: {k: v for k, v in st.items() if v and k != "identical"} for rel, st in sem.STATS.items()}
+    except Exception:       # noqa: BLE001 - evidence only
+        pass
     checked = [o for o in ctx.obs if o.verdict != UNVERIFIED]
     distinct = {(o.rule, o.construct) for o in checked if o.nontrivial}
     samples = []
